@@ -25,6 +25,7 @@ import warnings
 import numpy as np
 
 import common as C
+from gen_emp import SharedArg
 
 INF = float("inf")
 # switch points of the algorithm, pinned by hand (regimes, k=-1/2 split, Chebyshev ladder, table min_scales)
@@ -743,9 +744,20 @@ def run(seed, tier, replay=None):
         try:
             d = NQ(a, b, c, o, cv)
             with np.errstate(all="ignore"):
-                ics = np.asarray(d.cdf(np.array(ys)), dtype=float)
-                ips = np.asarray(d.pdf(np.array(ys)), dtype=float)
+                # the caller's array: ONE float64 grid goes into cdf and then pdf (`g = np.linspace(..); d.cdf(g); d.pdf(g)`); it must be
+                # bit-identical afterwards and both calls are judged at the numbers the caller put there
+                Ysh = SharedArg(ys)
+                ics = np.asarray(d.cdf(Ysh.obj), dtype=float)
+                dmg_c = Ysh.changed_by("cdf(ys)")
+                ips = np.asarray(d.pdf(Ysh.obj), dtype=float)
+                dmg_p = Ysh.changed_by("pdf(ys)")
                 sc0, sp0 = d.cdf(ys[0]), d.pdf(ys[0])
+            rep.count("shared_query_array:cdf,pdf(float64 ys)")
+            for nm_, dm_ in (("cdf", dmg_c), ("pdf", dmg_p)):
+                if dm_:
+                    rep.violate(what=f"{nm_} modified the caller's query array in place (the next call with the same array is evaluated on what it left there)",
+                                input=dict(base, ys=[C.fhex(float(v)) for v in ys]), observed=dm_,
+                                call=f"x = np.array(...); NoisyQuadraticDistribution.{nm_}(x); x")
         except Exception as e:  # valid by construction
             rep.violate(what="cdf/pdf raised on a valid input", error=repr(e), input=base,
                         call="NoisyQuadraticDistribution.cdf")
